@@ -231,10 +231,77 @@ type Fact struct {
 	Cond  ssa.Value
 	Truth bool
 	If    *ssa.If
+	Edge  int // index of the successor of If's block through which the fact holds (-1: unknown)
 }
 
 // condFacts returns the branch facts that dominate block b (innermost last). Negations are stripped.
 func condFacts(b *ssa.BasicBlock) []Fact {
+	out := condFactsBase(b)
+	// correlation through boolean variables: a fact on a phi whose incoming values are all constants (`ok` results of
+	// inlined helpers, flags set in branches) implies what holds on every incoming edge that carries that constant
+	if condFactsDepth < 3 {
+		condFactsDepth++
+		for _, ft := range append([]Fact{}, out...) {
+			phi, ok := ft.Cond.(*ssa.Phi)
+			if !ok {
+				continue
+			}
+			var common map[string]Fact
+			all := true
+			n := 0
+			for i, e := range phi.Edges {
+				cv, isC := e.(*ssa.Const)
+				if !isC || cv.Value == nil || cv.Value.Kind() != constant.Bool {
+					all = false
+					break
+				}
+				if constant.BoolVal(cv.Value) != ft.Truth {
+					continue
+				}
+				n++
+				pred := phi.Block().Preds[i]
+				fs := map[string]Fact{}
+				for _, f2 := range append(condFacts(pred), edgeFact(pred, phi.Block())...) {
+					fs[canonCond(f2.Cond, f2.Truth)] = f2
+				}
+				if common == nil {
+					common = fs
+				} else {
+					for k := range common {
+						if _, ok := fs[k]; !ok {
+							delete(common, k)
+						}
+					}
+				}
+			}
+			if !all || n == 0 {
+				continue
+			}
+			have := map[string]bool{}
+			for _, f2 := range out {
+				have[canonCond(f2.Cond, f2.Truth)] = true
+			}
+			var keys []string
+			for k := range common {
+				keys = append(keys, k)
+			}
+			sortStrings(keys)
+			for _, k := range keys {
+				if !have[k] {
+					f2 := common[k]
+					f2.Edge = -1
+					out = append(out, f2)
+				}
+			}
+		}
+		condFactsDepth--
+	}
+	return out
+}
+
+var condFactsDepth int
+
+func condFactsBase(b *ssa.BasicBlock) []Fact {
 	var out []Fact
 	// walk all strict dominators of b
 	for a := b.Idom(); a != nil; a = a.Idom() {
@@ -248,7 +315,7 @@ func condFacts(b *ssa.BasicBlock) []Fact {
 		for i := 0; i < 2; i++ {
 			if edgeDominates(a, i, b) {
 				c, t := stripNot(ifi.Cond, i == 0)
-				out = append([]Fact{{Cond: c, Truth: t, If: ifi}}, out...)
+				out = append([]Fact{{Cond: c, Truth: t, If: ifi, Edge: i}}, out...)
 			}
 		}
 	}
@@ -903,4 +970,156 @@ func freeVarName(v *ssa.FreeVar) string {
 		return fmt.Sprintf("^{%s#%d}", base, idx)
 	}
 	return "^{" + base + "}"
+}
+
+// reachedOnlyIfAbsent: every CFG path from the map lookup lk to instruction target takes a branch edge that asserts the
+// key was absent (comma-ok false) or the looked-up value nil. Handles `if v, ok := m[k]; ok && v != nil { return v }`,
+// `if m[k] == nil`, `if _, ok := m[k]; !ok`, in either branch orientation.
+func reachedOnlyIfAbsent(lk *ssa.Lookup, target ssa.Instruction) bool {
+	var okVal, val ssa.Value
+	if lk.CommaOk {
+		for _, r := range refsOf(lk) {
+			if ex, isEx := r.(*ssa.Extract); isEx {
+				if ex.Index == 1 {
+					okVal = ex
+				} else {
+					val = ex
+				}
+			}
+		}
+	} else {
+		val = lk
+	}
+	asserts := func(from *ssa.BasicBlock, succIdx int) bool {
+		ifi, isIf := from.Instrs[len(from.Instrs)-1].(*ssa.If)
+		if !isIf {
+			return false
+		}
+		c, truth := stripNot(ifi.Cond, succIdx == 0)
+		if okVal != nil && c == okVal && !truth {
+			return true
+		}
+		if b, isB := c.(*ssa.BinOp); isB && val != nil {
+			x, y := resolve(b.X), resolve(b.Y)
+			isVal := func(v ssa.Value) bool { return v == val || resolve(val) == v }
+			if (isVal(x) && isNilConst(y)) || (isVal(y) && isNilConst(x)) {
+				if (b.Op == token.EQL && truth) || (b.Op == token.NEQ && !truth) {
+					return true
+				}
+			}
+		}
+		return false
+	}
+	seen := map[*ssa.BasicBlock]bool{}
+	var walk func(b *ssa.BasicBlock) bool // true = all paths from the start of b are fine
+	walk = func(b *ssa.BasicBlock) bool {
+		if b == target.Block() {
+			return false // reached the target without an "absent" edge
+		}
+		if seen[b] {
+			return true
+		}
+		seen[b] = true
+		for i, s := range b.Succs {
+			if asserts(b, i) {
+				continue
+			}
+			if !walk(s) {
+				return false
+			}
+		}
+		return true
+	}
+	start := lk.Block()
+	if start == target.Block() {
+		return false
+	}
+	for i, s := range start.Succs {
+		if asserts(start, i) {
+			continue
+		}
+		if !walk(s) {
+			return false
+		}
+	}
+	return blockReach(start)[target.Block()]
+}
+
+// isNewHelper: a package-level, unexported function of the module that the reference tree (known_funcs.txt) does not
+// have - i.e. a helper introduced by a later change. Rules that are anchored on one function extend their scope to the
+// new helpers it calls, because the inlining pre-pass cannot absorb helpers that defer or recover.
+func isNewHelper(fn *ssa.Function) bool {
+	if fn == nil || fn.Parent() != nil || fn.Synthetic != "" || fn.Blocks == nil || !inModule(fnPkgPath(fn)) {
+		return false
+	}
+	obj := fn.Object()
+	if obj == nil || obj.Exported() {
+		return false
+	}
+	name := fn.Name()
+	if recv := fn.Signature.Recv(); recv != nil {
+		if n := namedOf(recv.Type()); n != nil {
+			name = n.Obj().Name() + "." + name
+		}
+	}
+	return !loadKnownFuncs()[relPkg(fnPkgPath(fn))+"|"+name]
+}
+
+// withNewHelpers returns fs plus the new helpers (see isNewHelper) that they call or defer, transitively (depth 3),
+// each with its anonymous functions.
+func withNewHelpers(fs []*ssa.Function) []*ssa.Function {
+	seen := map[*ssa.Function]bool{}
+	var out []*ssa.Function
+	var add func(f *ssa.Function, d int)
+	add = func(f *ssa.Function, d int) {
+		if seen[f] {
+			return
+		}
+		seen[f] = true
+		out = append(out, f)
+		if d >= 3 {
+			return
+		}
+		for _, ci := range callsIn(f) {
+			if cal := ci.Common().StaticCallee(); isNewHelper(cal) {
+				for _, g := range withAnon(cal) {
+					add(g, d+1)
+				}
+			}
+		}
+	}
+	for _, f := range fs {
+		add(f, 0)
+	}
+	return out
+}
+
+// insideLoop: block b lies in the body of a loop - it is control dependent on a branch taken inside a cycle whose
+// taken successor is itself on the cycle (a `return` inside a loop body is not on a cycle, but the test that leads
+// to it is).
+func insideLoop(b *ssa.BasicBlock) bool {
+	loops := loopBlocks(b.Parent())
+	if loops[b] {
+		return true
+	}
+	for _, ft := range condFacts(b) {
+		if ft.If == nil || ft.Edge < 0 {
+			continue
+		}
+		hb := ft.If.Block()
+		if loops[hb] && ft.Edge < len(hb.Succs) && (loops[hb.Succs[ft.Edge]] || hb.Succs[ft.Edge] == b && reachesBack(hb, ft.Edge)) {
+			return true
+		}
+	}
+	return false
+}
+
+// reachesBack: the other successor of the two-way branch in hb leads back to hb (hb is a test inside a loop body).
+func reachesBack(hb *ssa.BasicBlock, edge int) bool {
+	for i, s := range hb.Succs {
+		if i != edge && (s == hb || blockReach(s)[hb]) {
+			return true
+		}
+	}
+	return false
 }
